@@ -689,7 +689,10 @@ int write_elf(
   shdr.sh_offset = elf.sections_offset.symtab;
   shdr.sh_size = elf.sections_size.symtab;
   shdr.sh_link = 4;
-  shdr.sh_info = symbol_count + strtab_extras;
+  // One greater than the index of the last local symbol: null, the file
+  // name, .text (and .ARM.attributes) come first, the exported symbols
+  // (all STB_GLOBAL) follow.
+  shdr.sh_info = strtab_extras + 1 + (elf.cpu_type == CPU_TYPE_ARM ? 1 : 0);
   shdr.sh_addralign = 4;
   shdr.sh_entsize = elf.e_ident[EI_CLASS] == 1 ? 16 : 24;
   write_shdr(file, &shdr, &elf);
